@@ -1211,7 +1211,6 @@ func c09MaskErr(msg string) string {
 	return maskMsg(c09ArgNameRe.ReplaceAllString(msg, "${1}arg${2} must be"))
 }
 
-
 // c09Mismatch: the value an accepted document holds at the path an option writes does not even have the shape of
 // the option's argument (an array where the argument is a struct, …): the IR handed to the jennies pairs an
 // argument with a target it cannot fill. Reported once per option kind; Python-only limitations are not mismatches.
